@@ -61,3 +61,12 @@ Theorem C20_catch_and_continue_graphs :
     run (emitted_rows evs ++ fl_rows (st_flow s')) = Valid (accepted_events gs (enroll s)).
 Proof. exact catch_and_continue_graphs. Qed.
 Print Assumptions C20_catch_and_continue_graphs.
+
+(* non-vacuity: a run whose third statement is rejected; two statements are accepted before it *)
+From PJ.Proofs Require Import NonVacuity.
+Theorem C20_a_rejecting_run_exists :
+  exists s, stream_new TripleStream Generic ex_opts = Ok s /\
+    length (accepted stream_triple ex_stmts_poison (enroll s)) = 2%nat /\
+    raised (snd (drive stream_triple ex_stmts_poison (enroll s))) <> None.
+Proof. exact catch_and_continue_non_trivial. Qed.
+Print Assumptions C20_a_rejecting_run_exists.
